@@ -633,4 +633,12 @@ def r7_batch_invariant_reads(ctx):
         r.ok("reads/none", "no validation body under apply_tx_batch_impl reads %s" % sorted(written))
 
 
-RULES = [r1_inventory, r2_batch_commutativity, r3_ambient, r4_commitment_order, r5_globals, r6_parallel_isolation, r7_batch_invariant_reads]
+def shared(ctx):
+    """'equals applying the same transactions one at a time': the stake lock must judge a coin the same way whether its stake was registered by an earlier call
+    or by a member of the same batch (C13.R3: both tests are by the creating transaction's hash)"""
+    from rules.engine import core
+    from rules.props import c13
+    core.import_rules(ctx, [c13.r3_lock_gate], "X13")
+
+
+RULES = [r1_inventory, r2_batch_commutativity, r3_ambient, r4_commitment_order, r5_globals, r6_parallel_isolation, r7_batch_invariant_reads, shared]
